@@ -98,7 +98,7 @@ ASSUME_XRT = [
 ]
 
 
-def plan_queue_lin(prop, pattern, recls_quick, recls_thorough, norecl, rule, gate_counter=None):
+def plan_queue_lin(prop, pattern, recls_quick, recls_thorough, norecl, rule, gate_counter=None, execs_quick=400, execs_thorough=6000):
     def targets(tier):
         recls = recls_quick if tier == "quick" else recls_thorough
         t = [("queues.R%d" % r, "xrt-prod") for r in recls]
@@ -108,7 +108,7 @@ def plan_queue_lin(prop, pattern, recls_quick, recls_thorough, norecl, rule, gat
 
     def jobs(tier, seed, list_configs):
         recls = recls_quick if tier == "quick" else recls_thorough
-        execs = 400 if tier == "quick" else 6000
+        execs = execs_quick if tier == "quick" else execs_thorough
         return queue_jobs(list_configs, recls, pattern, "xrt-prod", "sc", execs, seed, norecl=norecl, per_job=2 if tier == "quick" else 1)
 
     def gates(tier, agg, counters, per_config, distinct):
@@ -135,23 +135,23 @@ PLANS["C04"] = plan_queue_lin(
     "each evaluation = one generated program (2-4 threads x <=6 push/try_pop/pop, sequential prefix, final drain) run under one "
     "seeded schedule of the controlled runtime and judged by a WGL linearizability search against a sequential FIFO; "
     "distinct_nontrivial counts distinct (program, call/return order, results) hashes in which at least two operations of different "
-    "threads overlap", ["empty_under_overlap"])
+    "threads overlap", ["empty_under_overlap"], execs_quick=2500, execs_thorough=30000)
 PLANS["C05"] = plan_queue_lin(
     "C05", r"^(vyu|nib)_", [], [], True,
     "as C04 but against a bounded FIFO of the configured capacity (failed strong try_push legal only when full; for "
     "nikolaev_bounded_queue when size + overlapping operations >= capacity; weak vyukov operations may fail spuriously)",
-    ["rejected_under_overlap", "empty_under_overlap"])
+    ["rejected_under_overlap", "empty_under_overlap"], execs_quick=6000, execs_thorough=100000)
 PLANS["C06"] = plan_queue_lin(
     "C06", r"^(kir|kib)_", [1, 2, 3, 4, 5, 6, 7], [1, 2, 3, 4, 5, 6, 7, 8, 9, 11, 12, 13, 14, 15], True,
     "as C04 but against a k-out-of-order FIFO (pop may return any of the k oldest; 'empty' legal iff size = 0, or size < k while "
     "overlapping another operation; bounded variant: rejection legal only with >= (segments-1)*k+1 stored values); the random "
-    "start index is drawn from the scheduler PRNG through hook H1", ["empty_under_overlap"])
+    "start index is drawn from the scheduler PRNG through hook H1", ["empty_under_overlap"], execs_quick=1500, execs_thorough=20000)
 PLANS["C07"] = plan_queue_lin(
     "C07", r"_(uptr|raw|tok)$", R8, R8 + RPLUS, True,
     "each evaluation = one generated queue program with tracked elements (unique_ptr<Tracked>, Tracked*, non-trivial movable Tok) "
     "followed by destruction of the queue at a random fill level; ownership registry: every value destroyed exactly once, never "
     "after hand-out, never by the queue for raw pointers, rejected values stay with the caller; heap oracle catches double frees",
-    ["destroyed_with_elements"])
+    ["destroyed_with_elements"], execs_quick=1500, execs_thorough=20000)
 
 def generic_jobs(list_configs, family, recls, pattern, variant, mode, execs, seed, window=16, extra=None, per_job=1):
     jobs = []
